@@ -70,8 +70,13 @@ RULES = {
     "scalar (or another array-like) into an array (`value = np.array(value)` / `np.asarray`) comes before the statement that applies "
     "`_maybe_view_np_array_with_ml_dtypes` - as an alternative arm of it (`elif isinstance(value, np.generic)`) or after it, the "
     "0-d array keeps its carrier type (uint16 / uint8 / int8) and numpy() returns bit patterns instead of bfloat16 / float8 / int4 values",
+    "R19": "the byte order is part of a numpy dtype: where the element-type module maps a numpy dtype to a DataType, the key looked up in "
+    "(or tested against) the numpy-to-DataType table is the dtype as given (or `np.dtype(<it>)`) - never rebuilt from an attribute "
+    "that forgets the byte order (`.type`, `.kind`, `.char`, `.name`, `.itemsize`, `.newbyteorder()`, `.base`): the byte producers "
+    "(tobytes / tofile / the serializer) swap bytes for the host's order only and rely on the refusal of foreign-order arrays, so a "
+    "`>f4` array accepted as FLOAT is written big-endian and every reader decodes other values than numpy() shows",
 }
-FLOORS = {"R1": 120, "R2": 4, "R3": 8, "R4": 1, "R5": 6, "R6": 20, "R7": 30, "R8": 4, "R9": 2, "R10": 1, "R11": 1, "R12": 3, "R13": 1, "R14": 8, "R15": 1, "R16": 12, "R17": 4, "R18": 2}
+FLOORS = {"R1": 120, "R2": 4, "R3": 8, "R4": 1, "R5": 6, "R6": 20, "R7": 30, "R8": 4, "R9": 2, "R10": 1, "R11": 1, "R12": 3, "R13": 1, "R14": 8, "R15": 1, "R16": 12, "R17": 4, "R18": 2, "R19": 2}
 EXPLANATION = (
     "Evaluates the enum and table literals of _enums/_core/tensor_adapters with ast only and compares them with "
     "each other; derives the sub-byte classes from _BITWIDTH_MAP and checks every storage guard, packing-helper "
@@ -1364,7 +1369,50 @@ def rule_r18(ctx):
     ctx.require(n >= 2, f"only {n} unpacking kernels with strided stores found")
 
 
+_ORDER_FORGETTING = {"type", "kind", "char", "name", "itemsize", "newbyteorder", "base", "num"}
+
+
+def rule_r19(ctx):
+    m = ctx.repo.module("onnx_ir._enums")
+    tables = {k for k, v in m.assigns.items() if isinstance(v, ast.Dict) and any(
+        isinstance(kk, ast.Call) and (dotted_of(kk.func) or "").endswith("dtype") for kk in v.keys if kk is not None)}
+    ctx.require(bool(tables), "the numpy-to-DataType table of onnx_ir._enums was not found")
+    n = 0
+    for f in ctx.repo.live(m.all_funcs):
+        if isinstance(f.node, ast.Lambda):
+            continue
+        keys = []
+        for x in own_nodes(f.node):
+            if isinstance(x, ast.Subscript) and isinstance(x.value, ast.Name) and x.value.id in tables and isinstance(x.ctx, ast.Load):
+                keys.append(x.slice)
+            elif isinstance(x, ast.Compare) and len(x.ops) == 1 and isinstance(x.ops[0], (ast.In, ast.NotIn)) and isinstance(x.comparators[0], ast.Name) and x.comparators[0].id in tables:
+                keys.append(x.left)
+            elif isinstance(x, ast.Call) and isinstance(x.func, ast.Attribute) and x.func.attr == "get" and isinstance(x.func.value, ast.Name) and x.func.value.id in tables and x.args:
+                keys.append(x.args[0])
+        for k in keys:
+            n += 1
+            # the key through the locals it was bound to
+            exprs, seen = [k], set()
+            bad = None
+            while exprs and bad is None:
+                e = exprs.pop()
+                for y in ast.walk(e):
+                    if isinstance(y, ast.Attribute) and y.attr in _ORDER_FORGETTING:
+                        bad = y
+                        break
+                    if isinstance(y, ast.Name) and y.id not in seen and y.id not in f.params:
+                        seen.add(y.id)
+                        exprs += [a.value for a in own_nodes(f.node) if isinstance(a, ast.Assign) and any(isinstance(t, ast.Name) and t.id == y.id for t in a.targets)]
+            ctx.check("R19", f"{f.local}: the key `{norm(k)[:40]}` of the numpy-to-DataType table keeps the byte order", bad is None, f, bad if bad is not None else k,
+                      f"the table is consulted with `{norm(k)[:50]}`, which is built from `{norm(bad) if bad is not None else ''}` - an attribute of the dtype that does not say in which "
+                      "byte order the elements are stored: a big-endian array (`np.frombuffer(buf, '>f4')`) is accepted under the little-endian element type, and tobytes() / tofile() / "
+                      "the serializer, which swap bytes for the host's order only, emit its bytes as they are - a decoder reads different values than numpy() shows",
+                      how="keys of lookups in the numpy-to-DataType table, through locals × dtype attributes that forget the byte order", construct=f"table key from {norm(bad) if bad is not None else ''}")
+    ctx.require(n >= 2, f"only {n} lookups in the numpy-to-DataType table found")
+
+
 def run(ctx):
+    rule_r19(ctx)
     rule_r18(ctx)
     rule_r17(ctx)
     rule_r16(ctx)
